@@ -42,9 +42,11 @@ import (
 	yjson2 "github.com/yorkie-team/yorkie/pkg/document/json"
 	"github.com/yorkie-team/yorkie/pkg/document/presence"
 	"github.com/yorkie-team/yorkie/pkg/key"
+	"github.com/yorkie-team/yorkie/server/backend/database"
 	"github.com/yorkie-team/yorkie/server/clients"
 	"github.com/yorkie-team/yorkie/server/documents"
 	"github.com/yorkie-team/yorkie/server/logging"
+	"github.com/yorkie-team/yorkie/server/packs"
 )
 
 func init() {
@@ -209,10 +211,23 @@ func runLocksWorker(cfg *config) error {
 	count := func(k string) { mu.Lock(); rep.Dist[k]++; rep.Ops++; mu.Unlock() }
 	problem := func(s string) {
 		mu.Lock()
-		if len(rep.Problems) < 8 {
+		if len(rep.Problems) < 8 || strings.HasPrefix(s, "document ") {
 			rep.Problems = append(rep.Problems, s)
 		}
 		mu.Unlock()
+	}
+	// an unexpected server error: look at the document's stored state right away
+	var diagnosed atomic.Bool
+	diagnose := func(d int, what string) {
+		if !diagnosed.CompareAndSwap(false, true) {
+			return
+		}
+		info, err := srv.Be.DB.FindDocInfoByKey(ctx, p.ID, key.Key(fmt.Sprintf("locks-%d-%d", cfg.seed, d)))
+		if err != nil || info == nil {
+			return
+		}
+		_, berr := packs.BuildInternalDocForServerSeq(ctx, srv.Be, info, info.ServerSeq)
+		problem(fmt.Sprintf("document %d right after %s: rebuild at head %d (epoch %d): %v; %s", d, what, info.ServerSeq, info.Epoch, berr, rebuildDiagnosis(ctx, srv, info)))
 	}
 	const nClients, nDocs = 8, 3
 	stop := make(chan struct{})
@@ -300,6 +315,7 @@ func runLocksWorker(cfg *config) error {
 							s.docs[d] = doc
 						} else if !expected(err) {
 							problem("Attach: " + err.Error())
+							diagnose(d, "Attach: "+err.Error())
 						}
 					}
 				case 1: // edit
@@ -325,6 +341,7 @@ func runLocksWorker(cfg *config) error {
 						count("sync")
 						if !expected(err) {
 							problem("Sync: " + err.Error())
+							diagnose(d, "Sync: "+err.Error())
 						}
 					}
 				case 3: // detach
@@ -333,6 +350,7 @@ func runLocksWorker(cfg *config) error {
 						count("detach")
 						if !expected(err) {
 							problem("Detach: " + err.Error())
+							diagnose(d, "Detach: "+err.Error())
 						}
 						s.docs[d] = nil
 					}
@@ -449,6 +467,16 @@ func runLocksWorker(cfg *config) error {
 			}
 		}
 	}
+	// the server can still rebuild every document from its store; if not, say which stored change fails
+	for d := 0; d < nDocs; d++ {
+		info, err := srv.Be.DB.FindDocInfoByKey(ctx, p.ID, key.Key(fmt.Sprintf("locks-%d-%d", cfg.seed, d)))
+		if err != nil || info == nil {
+			continue
+		}
+		if _, err := packs.BuildInternalDocForServerSeq(ctx, srv.Be, info, info.ServerSeq); err != nil {
+			problem(fmt.Sprintf("document %d cannot be rebuilt from the store at serverSeq %d: %v; %s", d, info.ServerSeq, err, rebuildDiagnosis(ctx, srv, info)))
+		}
+	}
 	for _, s := range slots {
 		if s != nil {
 			_ = s.cli.Close()
@@ -456,4 +484,32 @@ func runLocksWorker(cfg *config) error {
 	}
 	b, _ := json.MarshalIndent(rep, "", " ")
 	return os.WriteFile(filepath.Join(cfg.out, "worker.json"), b, 0o644)
+}
+
+// rebuildDiagnosis replays the stored changes on top of the closest stored snapshot one at a time and
+// names the first one that fails.
+func rebuildDiagnosis(ctx context.Context, srv *sim.Server, info *database.DocInfo) string {
+	snap, err := srv.Be.DB.FindClosestSnapshotInfo(ctx, info.RefKey(), info.ServerSeq, true)
+	if err != nil {
+		return "closest snapshot: " + err.Error()
+	}
+	doc, err := document.NewInternalDocumentFromSnapshot(info.Key, snap.ServerSeq, snap.Lamport, snap.VersionVector, snap.Snapshot)
+	if err != nil {
+		return fmt.Sprintf("snapshot at %d does not decode: %v", snap.ServerSeq, err)
+	}
+	chs, err := srv.Be.DB.FindChangesBetweenServerSeqs(ctx, info.RefKey(), snap.ServerSeq+1, info.ServerSeq)
+	if err != nil {
+		return "read changes: " + err.Error()
+	}
+	for _, c := range chs {
+		if _, _, err := doc.ApplyChangesForReplay(c); err != nil {
+			var ops []string
+			for _, op := range c.Operations() {
+				ops = append(ops, fmt.Sprintf("%T(parent %s, at %s)", op, op.ParentCreatedAt().ToTestString(), op.ExecutedAt().ToTestString()))
+			}
+			return fmt.Sprintf("stored snapshot at serverSeq %d (vector %s), change at serverSeq %d by %s (lamport %d, vector %s) fails: %v; operations %v; document before it: %s",
+				snap.ServerSeq, snap.VersionVector.Marshal(), c.ServerSeq(), c.ID().ActorID().String(), c.ID().Lamport(), c.ID().VersionVector().Marshal(), err, ops, trunc(doc.Marshal(), 300))
+		}
+	}
+	return "replaying the changes one by one on the stored snapshot succeeds"
 }
